@@ -184,7 +184,8 @@ def chfOp (guard : SplitGuard) (sl : ChfSt) : Tok → ChfSt × String
      | some (r, []) =>
        -- `Req.nf = none` stands for "no consumer identification the CHF accepts": the member is missing, or - for a
        -- session - the name has a path separator (the reference built from it could not be the last element of a URI)
-       let r := if !r.one && (r.nf.map (·.contains 47)).getD false then { r with nf := none } else r
+       -- … or a control character (the Location header could not carry the reference)
+       let r := if !r.one && (r.nf.map (fun n => n.contains 47 || n.any Chf.Charging.isControl)).getD false then { r with nf := none } else r
        runOp guard sl (.create r)
      | _ => (sl, "bad-op"))
   | "update" :: sid :: t =>
